@@ -266,6 +266,26 @@ def gen_dialog(rng, n):
     return out
 
 
+def gen_pool(rng, n):
+    """a pooled connection reused by consecutive tunnels through the real NodeConnectionPool.Get / Conn.IsHealthy / Release;
+    in some cases the previous tunnel's peer sends a late frame after the connection went back to the pool"""
+    out = []
+    for i in range(n):
+        rounds = []
+        for r in range(rng.choice([2, 2, 3, 4])):
+            tid = "p%d-%d" % (rng.randrange(10 ** 6), r)
+            rd = {"id": hx(tid), "len": rng.choice([1, 5000, 70000, 220000]), "chunk": rng.choice([1000, 32768, 70000]),
+                  "end": rng.choice(["c", "cw"]), "idle_ms": rng.choice([0, 2, 5])}
+            if i % 6 == 5 and rng.random() < 0.6:
+                late = pad16(tid.encode()) + bytes([rng.choice([T_CLOSE, T_DATA])])
+                body = rand_bytes(rng, rng.choice([0, 0, 40]))
+                rd["residual"] = (late + len(body).to_bytes(4, "big") + body).hex()
+                rd["idle_ms"] = 5
+            rounds.append(rd)
+        out.append({"mode": "pool", "seed": rng.randrange(1 << 30), "rounds": rounds})
+    return out
+
+
 def gen_stream_big(rng, thorough):
     out = []
     sizes = [MAXF - 1, MAXF, MAXF + 1, 2 * MAXF - 1, 2 * MAXF, 2 * MAXF + 1, 200000]
@@ -522,7 +542,7 @@ def case_values(c, o):
         return [[0, fr, hb(o["wire"]), list(c["cuts"]), obs]]
     if o.get("skipped"):
         return []
-    if c["mode"] in ("conc", "fwd", "duplex", "halfclose"):
+    if c["mode"] in ("conc", "fwd", "duplex", "halfclose", "pool"):
         return []
     if c["mode"] == "dialog":
         kinds = {"w": 0, "cw": 1, "c": 2, "rn": 3, "ra": 4}
@@ -600,6 +620,13 @@ def shrink(binary, case, key):
         changed = False
         if time.time() > t_end:
             break
+        rounds = cur.get("rounds") or []
+        for i in range(len(rounds)):
+            if len(rounds) > 2:
+                t = dict(cur, rounds=rounds[:i] + rounds[i + 1:])
+                if fails(t):
+                    cur, changed = t, True
+                    break
         items = cur.get("dialog") or []
         for i in range(len(items)):
             if len(items) > 1:
@@ -700,6 +727,7 @@ def run(ctx, only_cases=None):
         cases += gen_stream(rng, 3000 if thorough else 300, collide_every=25)
         cases += gen_stream_tracker(rng, 600 if thorough else 80)
         cases += gen_dialog(rng, 1500 if thorough else 150)
+        cases += gen_pool(rng, 200 if thorough else 24)
         cases += gen_stream_hostile(rng, 600 if thorough else 60)
         cases += gen_stream_big(rng, thorough)
         cases += gen_tid(rng, 400 if thorough else 40)
@@ -827,6 +855,12 @@ def run(ctx, only_cases=None):
             dist["forwarder_gated_schedules"] = dist.get("forwarder_gated_schedules", 0) + 1
             if c["up"] and c["down"] and 0 in c["sched"] and 1 in c["sched"]:
                 nontrivial.add(h)
+        elif c["mode"] == "pool":
+            dist["pool_reuse_runs"] = dist.get("pool_reuse_runs", 0) + 1
+            dist["pool_rounds_on_reused_connection"] = dist.get("pool_rounds_on_reused_connection", 0) + sum(1 for r in (o.get("reused") or []) if r)
+            dist["pool_runs_with_residual_frames"] = dist.get("pool_runs_with_residual_frames", 0) + any(r.get("residual") for r in c["rounds"])
+            if sum(1 for r in (o.get("reused") or []) if r) >= 1:
+                nontrivial.add(h)
         elif c["mode"] == "dialog":
             dist["dialog_scripts"] = dist.get("dialog_scripts", 0) + 1
             ks = [st["k"] for st in c["dialog"]]
@@ -890,6 +924,7 @@ def run(ctx, only_cases=None):
         "transport write errors and deadlines are not modelled (Write/CloseWrite/Close succeed on the transport)",
         "the mutexes of FrameStream (readMu/writeMu) are not modelled: one Read / one Write is one atomic step",
         "allocation is the sizes passed to make([]byte, n) in ReadFrameFromReader (model) and runtime.MemStats.TotalAlloc deltas (harness); error values are not counted by the model",
+        "pooled connections: reuse through NodeConnectionPool.Get / Conn.IsHealthy / Release is exercised on the real code (mode pool) but not modelled: the model's transport is a byte stream that delivers what was written, and a reused connection has to be one",
         "runBidirectionalForward is modelled as two copy loops at Read/Write-call granularity (Model/Forward.v): io.Copy's fast paths (ReaderFrom/WriterTo, used for a bare *net.TCPConn without counters), short writes, transport errors and the closeAll bookkeeping are not modelled; CrossNodeListener and the pool are not modelled",
     ]
     if broken is not None:
